@@ -50,15 +50,34 @@ def traces(v, wd, ex, bind, pid, rnd, n, views, ops, nshards=8, name="random-cal
     return done
 
 
+def api_audit(wd):
+    """Every function the public headers declare, and those no harness command reaches (coverage statement, not a verdict)."""
+    import glob as _g
+    protos = set()
+    for h in _g.glob(os.path.join(REPO, "include", "avtp", "**", "*.h"), recursive=True):
+        src = re.sub(r"/\*.*?\*/", "", open(h).read(), flags=re.S)
+        for m in re.finditer(r'^\s*(?:static\s+inline\s+)?[\w\*\s]+?\b((?:Avtp|avtp)_\w+|IsFieldDescriptorValid)\s*\(', src, flags=re.M):
+            protos.add(m.group(1))
+    text = ""
+    for f in _g.glob(os.path.join(gen_bindings(wd), "*.c")) + [os.path.join(HARNESS, x) for x in ("exec.c", "exec_ext.c", "stress.c")]:
+        text += open(f).read()
+    pasted = set()
+    for m in re.finditer(r'\b(Avtp_\w+)##bits', text):
+        pasted |= {m.group(1) + b for b in ("16", "32", "64")}
+    unbound = sorted(p_ for p_ in protos if p_ not in pasted and not re.search(r'\b' + p_ + r'\b', text))
+    return {"public_functions": len(protos), "not_reached_by_any_harness_command": unbound}
+
+
 @check("C01")
 def c01(v, tier, seed):
     rnd = random.Random(seed)
     wd, ex, bind = setup(v)
+    v.cov["api_audit"] = api_audit(wd)
     q = tier == "quick"
-    gen_and_replay(v, wd, ex, bind, "C01", tier, rnd, "get", ALL_VIEWS, 2 if q else 12, True, props=["ReadOnlyOps"])
+    gen_and_replay(v, wd, ex, bind, "C01", tier, rnd, "get", ALL_VIEWS, 2 if q else 24, True, props=["ReadOnlyOps"])
     # values that collide with in-band error codes (2^w - errno) read back through every path
     gen_and_replay(v, wd, ex, bind, "C01", tier, rnd, "sentinel", ALL_VIEWS, 0, False, props=["ReadOnlyOps"])
-    traces(v, wd, ex, bind, "C01", rnd, 24000 if q else 400000, ALL_VIEWS, ("get",), nshards=8 if q else 16)
+    traces(v, wd, ex, bind, "C01", rnd, 24000 if q else 1500000, ALL_VIEWS, ("get",), nshards=8 if q else 16)
     # the dedicated getter's return type must be able to carry the whole field
     layout = pdu.field_widths(wd)
     for view, vb in bind.views.items():
@@ -79,12 +98,12 @@ def c02(v, tier, seed):
     rnd = random.Random(seed)
     wd, ex, bind = setup(v)
     q = tier == "quick"
-    gen_and_replay(v, wd, ex, bind, "C02", tier, rnd, "set", ALL_VIEWS, 1 if q else 8, False,
+    gen_and_replay(v, wd, ex, bind, "C02", tier, rnd, "set", ALL_VIEWS, 1 if q else 12, False,
                    props=["FrameOK", "OthersKept"], invs=["ReadBack"], readback=True)
     # prior contents related to the write's own result (one bit away from it, quadlet byte-reversed): "already in place" short cuts
     gen_and_replay(v, wd, ex, bind, "C02", tier, rnd, "nearset", ALL_VIEWS, 0, False,
                    props=["FrameOK", "OthersKept"], invs=["ReadBack"], readback=True)
-    traces(v, wd, ex, bind, "C02", rnd, 24000 if q else 400000, ALL_VIEWS, ("set",), nshards=8 if q else 16)
+    traces(v, wd, ex, bind, "C02", rnd, 24000 if q else 1500000, ALL_VIEWS, ("set",), nshards=8 if q else 16)
     v.cov["rule"] = ("TLC enumerates Set on every field x path x boundary values (0, 1, 2^w-1, 2^w, every single bit, all-ones, 0xAA.., 0x55..) "
                      "x background images; each is executed on exact and slack placements with all bytes compared, then read back through every reader; "
                      "plus seeded random 64-bit values on random images validated by PduTrace")
@@ -204,7 +223,7 @@ def c04(v, tier, seed):
     # prior contents one bit away from an initialised header / canonical prefix followed by junk: "already initialised" short cuts
     gen_and_replay(v, wd, ex, bind, "C04", tier, rnd, "nearinit", ALL_VIEWS, 0, False, depth=1 if q else 2,
                    invs=["InitCanonical"], props=["FrameOK"])
-    traces(v, wd, ex, bind, "C04", rnd, 6000 if q else 120000, sorted(bind.views), ("init",), nshards=4 if q else 16, name="random-inits")
+    traces(v, wd, ex, bind, "C04", rnd, 6000 if q else 600000, sorted(bind.views), ("init",), nshards=4 if q else 16, name="random-inits")
     v.cov["rule"] = "every initialiser (current and legacy) x background images x exact/slack arenas, twice in a row (idempotence); random prior contents validated by PduTrace"
     v.cov["distinct_nontrivial"] = v.cov.get("replayed_transitions", 0)
 
@@ -228,14 +247,14 @@ def c05(v, tier, seed):
     groups = [ALL_VIEWS[i::4] for i in range(4)]
     for gi, g in enumerate(groups):
         run_hist(v, wd, ex, bind, "C05", rnd, "record", g, 40, 5, [0, 1, 5, 6, 7], 3, ["RecordView", "ReadsLastWritten"],
-                 simulate="num=%d" % (6 if q else 400), name="GenHist/simulate[%d]" % gi, seed=seed + gi)
+                 simulate="num=%d" % (6 if q else 1500), name="GenHist/simulate[%d]" % gi, seed=seed + gi)
     # (c) trace direction: seeded random histories recorded from the library, validated by PduTrace
     layout = pdu.field_widths(wd)
     shards = []
     nsh = 8 if q else 16
     cmds_all, evs_all = [], []
     for i in range(nsh):
-        cmds, evs = pdu.drive_histories(rnd, bind, layout, 12 if q else 300, 40, ALL_VIEWS)
+        cmds, evs = pdu.drive_histories(rnd, bind, layout, 12 if q else 1000, 40, ALL_VIEWS)
         outs = ex.run_robust(cmds)
         done = pdu.finish_hist_events(evs, outs, v, "C05")
         shards.append(done)
@@ -277,7 +296,7 @@ def c12(v, tier, seed):
     # in-band error values (2^w - errno), near-valid prior contents: where a wrapper's error convention or short cut could differ from the current API
     for scn in ("sentinel", "nearset", "nearinit"):
         gen_and_replay(v, wd, ex, bind, "C12", tier, rnd, scn, LEGACY_VIEWS, 0, False, readback=(scn == "nearset"))
-    traces(v, wd, ex, bind, "C12", rnd, 8000 if q else 200000, LEGACY_VIEWS, ("get", "set", "init"), nshards=4 if q else 16, name="legacy-vs-current")
+    traces(v, wd, ex, bind, "C12", rnd, 8000 if q else 800000, LEGACY_VIEWS, ("get", "set", "init"), nshards=4 if q else 16, name="legacy-vs-current")
     # the repository's own unit tests (which drive the deprecated API) recorded through an LD_PRELOAD interposer
     unit_test_traces(v, wd, "C12")
     v.cov["rule"] = ("legacy alias macros and packed structures validated as facts by FactsTrace; the same TLC transitions are executed through the "
@@ -323,7 +342,7 @@ def c06(v, tier, seed):
         v.cov["evaluations"] += st["executed"]
         v.cov.setdefault("replayed_transitions", 0); v.cov["replayed_transitions"] += len(vecs)
         if vecs: v.sample({"tlc_transition": vecs[len(vecs) // 2]})
-    cmds, evs = can.drive(rnd, 6000 if q else 150000)
+    cmds, evs = can.drive(rnd, 6000 if q else 600000)
     outs = ex.run_robust(cmds)
     done = can.finish(evs, outs, v)
     v.cov["evaluations"] += len(cmds)
@@ -375,7 +394,7 @@ def c07(v, tier, seed):
         vss_gen(v, wd, ex, "C07", rnd, "encode", [0, 1], [11, 128, 130, 134, 138, 139], 1, big=True, name="GenVss/encode-max-lengths", heap="16g")
     # prior contents = the same call's own result with one bit of the path / value / length prefix flipped
     vss_gen(v, wd, ex, "C07", rnd, "near", [0, 1], vss.ALL_TYPES, 1 if q else 2, name="GenVss/near")
-    vss_traces(v, wd, ex, "C07", rnd, 8000 if q else 200000, ("putpath", "putdata"), 6 if q else 16, "random-encodes")
+    vss_traces(v, wd, ex, "C07", rnd, 8000 if q else 600000, ("putpath", "putdata"), 6 if q else 16, "random-encodes")
     v.cov["rule"] = ("TLC: 4 address modes x 24 datatypes + reserved codes x paths {0,1,4,13 bytes incl. NUL; 3 static ids} x per-type value patterns "
                      "(extremes, distinct bytes, NaN payload, sign bit; 0,1,2,3,7 elements) x backgrounds x 2 buffer offsets: putpath then putdata replayed on "
                      "arenas ending right behind the message; random paths/values validated by VssTrace")
@@ -391,9 +410,9 @@ def c08(v, tier, seed):
     vss_gen(v, wd, ex, "C08", rnd, "decode", [0, 1], vss.ALL_TYPES, 1 if q else 3)
     if not q:
         vss_gen(v, wd, ex, "C08", rnd, "decode", [0, 1], [11, 128, 130, 134, 138, 139], 1, big=True, name="GenVss/decode-max-lengths", heap="16g")
-    vss_traces(v, wd, ex, "C08", rnd, 8000 if q else 200000, ("calcpath", "getpath", "getdata"), 6 if q else 16, "random-decodes")
+    vss_traces(v, wd, ex, "C08", rnd, 8000 if q else 600000, ("calcpath", "getpath", "getdata"), 6 if q else 16, "random-decodes")
     # identity on library-encoded messages: encode with the library, decode with the library, TLC validates both halves
-    cmds, evs = vss.drive(rnd, 2000 if q else 40000, ("putdata",))
+    cmds, evs = vss.drive(rnd, 2000 if q else 120000, ("putdata",))
     outs = ex.run_robust(cmds)
     enc = vss.finish(evs, outs, v)
     cmds2, evs2 = [], []
@@ -424,7 +443,7 @@ def c09(v, tier, seed):
     # finalising an already finalised message whose pad bytes are stale / whose first quadlet is one bit off
     nl = sorted(set(list(range(12, 34)) + [1022, 2043])) if q else [x for x in lens if x < 300 or x > 2030]
     vss_gen(v, wd, ex, "C09", rnd, "nearpad", [0], [0], 1 if q else 2, lens=nl, name="GenVss/nearpad")
-    vss_traces(v, wd, ex, "C09", rnd, 4000 if q else 80000, ("pad",), 4 if q else 16, "random-pads")
+    vss_traces(v, wd, ex, "C09", rnd, 4000 if q else 300000, ("pad",), 4 if q else 16, "random-pads")
     # the length accessors carry all 512 values: dedicated + generic, through the PduStore machinery
     res = run_tlc("GenLen512", "SPECIFICATION GSpec\nCONSTANT Buf = {1}\nCONSTRAINT Emit\nINVARIANT ReadBack\nCHECK_DEADLOCK FALSE\n", wd)
     v.add_tlc("GenLen512", res)
@@ -451,7 +470,7 @@ def c10(v, tier, seed):
     v.cov["evaluations"] += st["executed"]; v.cov["replayed_transitions"] = len(res.emitted)
     x = next((e for e in res.emitted if e["op"] == "unpack" and e["req"] > e["count"] > 0), res.emitted[0])
     v.sample({"tlc_transition": {k: (x[k] if len(str(x[k])) < 300 else "...") for k in x}})
-    cmds, evs = vss.sa_drive(rnd, 4000 if q else 100000)
+    cmds, evs = vss.sa_drive(rnd, 4000 if q else 400000)
     outs = ex.run_robust(cmds)
     done = vss.sa_finish(evs, outs, v)
     v.cov["evaluations"] += len(cmds)
@@ -500,7 +519,7 @@ def c13(v, tier, seed):
     v.cov["evaluations"] += nrep; v.cov["replayed_transitions"] = nrep
     # trace direction: random 16/32/64-bit values through both builds
     evs, cmds = {"LE": [], "BE": []}, {"LE": [], "BE": []}
-    n = 12000 if q else 300000
+    n = 12000 if q else 1200000
     for _ in range(n):
         b = rnd.choice(("LE", "BE")); size = rnd.choice((2, 4, 8)); fn = rnd.choice(fns)
         x = [rnd.randrange(256) for _ in range(size)]
@@ -711,7 +730,7 @@ def c16(v, tier, seed):
     r = subprocess.run(cmd, capture_output=True, text=True)
     if r.returncode != 0: raise CompileError(r.stderr[-3000:])
     nthr = 8
-    per = 1500 if q else 20000
+    per = 1500 if q else 40000
     L = layout["hdrlen"]
     shared = pdu.rand_bytes(rnd, 32)
     lines = ["S 0 " + hexs(shared)]
@@ -763,7 +782,7 @@ def c16(v, tier, seed):
     inp = os.path.join(wd, "stress_in.txt")
     open(inp, "w").write("\n".join(lines) + "\n")
     env = dict(os.environ, TSAN_OPTIONS="halt_on_error=0:report_signal_unsafe=0:exitcode=0")
-    runs = 2 if q else 6
+    runs = 2 if q else 10
     for run in range(runs):
         try:
             r = subprocess.run([stress, inp], capture_output=True, text=True, timeout=900, env=env)
@@ -1118,7 +1137,7 @@ def c18(v, tier, seed):
         for cse in cases:
             if cse["class"].startswith("good"): goods.setdefault((cse["m0"], cse["m1"]), cse)
         # random datagrams (seeded): arbitrary bytes and bit-flipped well-formed ones
-        nf = 60 if q else 1500
+        nf = 60 if q else 6000
         for i in range(nf):
             m0, m1 = rnd.choice(list(goods.keys()))
             if rnd.random() < 0.5:
